@@ -61,7 +61,6 @@ pub struct PLock {
     pub visible: bool,
     pub group_key: String,
     pub key_of_source: String,
-    pub raw: Value,
 }
 
 fn parse_source(v: &Value) -> Option<PSource> {
@@ -115,7 +114,6 @@ pub fn parse_table(t: &Value) -> Result<Vec<PLock>, String> {
                 visible: l.get("visible").and_then(|b| b.as_bool()).unwrap_or(false),
                 group_key: key.clone(),
                 key_of_source: l.get("key_of_source").and_then(|n| n.as_str()).unwrap_or("").to_string(),
-                raw: l.clone(),
             });
         }
     }
@@ -154,6 +152,8 @@ pub struct Shape {
     pub classes: BTreeSet<String>,
     pub diamond: bool,
     pub alias: bool,
+    /// some declaration had several locked releases to choose from
+    pub ambiguous: bool,
 }
 
 impl<'a> World<'a> {
@@ -332,6 +332,10 @@ impl<'a> World<'a> {
                     Ok(x) => x.clone(),
                     Err(()) => (vec![], false),
                 };
+                if from_lock && set.len() >= 2 {
+                    shape.ambiguous = true;
+                    shape.classes.insert("several locked releases satisfy one requirement".into());
+                }
                 if !set.contains(&idx) {
                     let names: Vec<String> = set.iter().map(|i| self.rels[*proj][*i].version.to_string()).collect();
                     let sig = if from_lock { "locked-release-not-kept" } else { "not-the-highest-release" };
@@ -542,9 +546,10 @@ impl<'a> World<'a> {
     /// Which errors the property allows: explores every way of choosing among
     /// several locked releases.  Returns (error kinds that can happen, whether
     /// some way succeeds, exploration complete).
-    pub fn possible_errors(&self, t0: &[PLock], force: bool) -> (BTreeSet<&'static str>, bool, bool) {
+    pub fn possible_errors(&self, t0: &[PLock], force: bool) -> (BTreeSet<&'static str>, bool, bool, bool) {
         let mut kinds = BTreeSet::new();
         let mut some_ok = false;
+        let mut had_choice = false;
         let mut script: Vec<usize> = vec![];
         let mut runs = 0;
         loop {
@@ -609,6 +614,9 @@ impl<'a> World<'a> {
             if errs.is_empty() {
                 some_ok = true;
             }
+            if !widths.is_empty() {
+                had_choice = true;
+            }
             kinds.extend(errs);
             // next script (odometer)
             let mut next: Vec<usize> = (0..widths.len()).map(|i| script.get(i).copied().unwrap_or(0).min(widths[i] - 1)).collect();
@@ -624,10 +632,10 @@ impl<'a> World<'a> {
                 }
             }
             if !advanced {
-                return (kinds, some_ok, true);
+                return (kinds, some_ok, true, had_choice);
             }
             if runs >= 300 {
-                return (kinds, some_ok, false);
+                return (kinds, some_ok, false, had_choice);
             }
             script = next;
         }
